@@ -12,7 +12,7 @@ META = {
                  "interpreter (own RC4, CBC/ECB, PKCS#5, loop control) against lopdf in both directions; every comparison is "
                  "judged by Trace_SecurityAlgorithms",
     "text": "TLC checks the protocol for revisions 2-6 x key lengths x EncryptMetadata x RC4/AESV2/AESV3 x password classes "
-            "(empty, short, Latin-1, exactly 32 / 127 bytes, longer, absent owner password): a password authenticates as user "
+            "(empty, short, Latin-1, exactly 32 / 127 bytes, longer, multi-byte character at the 127-byte cut, absent owner password): a password authenticates as user "
             "(owner) iff it is canonically equal to the user (owner) password (Algorithm 7 inverts Algorithm 3 only with the 20 RC4 "
             "passes in reverse key order, Algorithm 12 needs U: both mutants are refuted), every authenticated password recovers "
             "the writer's file key (Algorithms 2 / 2.A from UE and OE), Perms validates, and decryption inverts encryption for every "
@@ -25,7 +25,7 @@ META = {
             "and aes crates (known-answer tests RFC 6229 / FIPS 197 / SP 800-38A / FIPS 180 / RFC 1321 at every start of the "
             "harness); lopdf's writer and loader as transport of already encrypted payloads (documents that do not survive an "
             "unencrypted save + load are skipped). Passwords are restricted to classes where PDFDocEncoding / SASLprep are the "
-            "identity or the Latin-1 code (ASCII, e-acute, u-umlaut). MD5/SHA-2/AES internals are uninterpreted in the spec. "
+            "identity or the Latin-1 code (ASCII, e-acute, u-umlaut; for R5/R6 also U+20AC, U+20000 and siblings). MD5/SHA-2/AES internals are uninterpreted in the spec. "
             "Configurations are enumerated exhaustively by TLC, documents / salts / IVs / permission words are seeded samples.",
     "bins": ["c06"],
     "modules": ["MC_SecurityAlgorithms.tla", "Trace_SecurityAlgorithms.tla"],
@@ -34,7 +34,11 @@ META = {
 
 ASSUMPTIONS = [
     "Password classes: empty, 4-6 ASCII bytes, three Latin-1 letters (a, U+00E9, U+00FC: PDFDocEncoding = Latin-1 code, SASLprep = "
-    "identity), exactly 32 bytes, 41 bytes, exactly 127 bytes, 133 bytes; the reference prepares them itself (no stringprep).",
+    "identity), exactly 32 bytes, 41 bytes, exactly 127 bytes, 133 bytes; for revisions 5-6 also passwords with a 2-, 3- or 4-byte "
+    "character (U+00E9, U+20AC, U+20000) at the 127-byte cut with 1..k-1 of its bytes before the cut, exactly 127 / 128 bytes ending in such a "
+    "character, each as user and as owner password, tried with itself, with a sibling character sharing the leading bytes (U+00E3, U+20A9, "
+    "U+2000B: same first 127 bytes, must open) and cut at the character boundary (must not open); stringprep 0.1.5 maps all of these to "
+    "themselves (probed; U+1F600 is prohibited by SASLprep and therefore not used). The reference prepares passwords itself (no stringprep).",
     "'Absent owner password' is the empty string (the only way lopdf's API can express it); Algorithm 3 (a) then uses the user password.",
     "Algorithm 5 (f): only the first 16 bytes of U are compared for revisions 3-4 (UCmpLen in the spec); the 4 random bytes of Perms, the "
     "salts in U[32..48] / O[32..48] and every AES IV are read from lopdf's output and substituted into the terms.",
@@ -58,15 +62,40 @@ MODEL_DEV = {"h12": False, "ownerAbsent": False}
 MUTANTS = [("MC_SecurityAlgorithms_mut_alg7.cfg", "AuthOwnerComplete"), ("MC_SecurityAlgorithms_mut_alg12.cfg", "AuthOwnerComplete")]
 
 
-def seg_text(s):
-    if s["id"] == "lat":
-        return "aéü"
-    idb = s["id"].encode()
-    return "".join(chr(idb[i]) if i < len(idb) else chr(48 + ((i * 7 + idb[0]) % 10)) for i in range(s["len"]))
+def _ascii_run(key, n):
+    kb = key.encode()
+    return bytes(kb[i] if i < len(kb) else 48 + ((i * 7 + kb[0]) % 10) for i in range(n))
+
+
+_CUT = {(2, 0): "\u00e9", (2, 1): "\u00e3", (3, 0): "\u20ac", (3, 1): "\u20a9", (4, 0): "\U00020000", (4, 1): "\U0002000b"}
+
+
+def seg_bytes(s):
+    """mirror of seg_bytes in harness/src/bin/c06.rs (for the details of a report only)"""
+    i, n = s["id"], s["len"]
+    if i == "lat":
+        return "a\u00e9\u00fc".encode()
+    if len(i) == 3 and i[0] in "HTUC" and i[1:].isdigit():
+        k, j = int(i[1]), int(i[2])
+        ch, sib = _CUT[(k, 0)].encode(), _CUT[(k, 1)].encode()
+        if i[0] == "H":
+            return _ascii_run("H%d%d" % (k, j), n - j) + ch[:j]
+        if i[0] == "C":
+            return _ascii_run("H%d%d" % (k, j), n)
+        return (ch if i[0] == "T" else sib)[j:] + _ascii_run(i, n - (k - j))
+    if len(i) == 2 and i[0] in "FG" and i[1].isdigit():
+        k = int(i[1])
+        return _ascii_run("F%d" % k, n - k) + _CUT[(k, 0)].encode() if i[0] == "F" else _ascii_run("F%d" % k, n)
+    return _ascii_run(i, n)
 
 
 def pw_text(segs):
-    return "".join(seg_text(s) for s in segs)
+    return b"".join(seg_bytes(s) for s in segs).decode("utf-8", "replace")
+
+
+def split_at_cut(segs):
+    """the 127-byte cut falls inside a multi-byte character (Trace_SecurityAlgorithms!SplitAtCut)"""
+    return len(segs) >= 3 and segs[1].get("split") == 1
 
 
 def detail(rec):
@@ -118,6 +147,26 @@ def check_generated(lines):
     for k, on in MODEL_DEV.items():
         if any(c["model"][k] for c in cases) != on:
             raise vlib.ToolError("modelled deviation %s %s in the design as the code is" % (k, "never occurs" if on else "still occurs"))
+    # revisions 5-6: passwords with a 2-, 3- and 4-byte character at the 127-byte cut (1 .. k-1 bytes before it), exactly
+    # 127 / 128 bytes ending in such a character, as user and as owner password; tried: the password, a different
+    # password with the same first 127 bytes (opens), the password cut at the character boundary (does not open)
+    for r in (5, 6):
+        for who in ("user", "owner"):
+            cs = [c for c in cases if c["cfg"]["R"] == r]
+            heads = {c[who][1]["id"] for c in cs if len(c[who]) == 3 and c[who][1]["split"] == 1}
+            if heads != {"H21", "H31", "H32", "H41", "H42", "H43"}:
+                raise vlib.ToolError("vacuous: revision %d %s passwords cut inside a character: %s" % (r, who, sorted(heads)))
+            if {c[who][1]["id"] for c in cs if len(c[who]) == 2} & {"F2", "F3", "F4"} != {"F2", "F3", "F4"}:
+                raise vlib.ToolError("vacuous: revision %d %s passwords of exactly 127 bytes ending in a multi-byte character missing" % (r, who))
+            if {c[who][1]["id"] for c in cs if split_at_cut(c[who]) and c[who][2]["len"] < 4} != {"H21", "H32", "H43"}:
+                raise vlib.ToolError("vacuous: revision %d %s passwords of exactly 128 bytes ending in a multi-byte character missing" % (r, who))
+            exp = "expUser" if who == "user" else "expOwner"
+            other = "expOwner" if who == "user" else "expUser"
+            mine = [c for c in cs if split_at_cut(c[who]) and not c[other]]
+            if not any(c[exp] and c["try"] == c[who] for c in mine) or \
+               not any(c[exp] and split_at_cut(c["try"]) and c["try"] != c[who] for c in mine) or \
+               not any(not c[exp] and len(c["try"]) == 2 and c["try"][1]["id"][0] == "C" for c in mine):
+                raise vlib.ToolError("vacuous: revision %d %s: cut-in-character password not tried with itself / sibling / boundary cut" % (r, who))
     groups = {(json.dumps(c["cfg"], sort_keys=True), c["absent"], json.dumps(c["user"]), json.dumps(c["owner"])) for c in cases}
     return len(terms), len(cases), len(groups)
 
@@ -251,6 +300,12 @@ def run(tier):
             vac.append("revision %d: user / owner password never tried" % R)
         if not any(r["route"] == "file" for r in opens) or not any(r["route"] in ("auto", "load") for r in opens):
             vac.append("revision %d: file route / loader auto-decrypt never exercised" % R)
+        if R >= 5:
+            for who, obsname in (("user", "U"), ("owner", "O")):
+                if not any(r["ev"] == "obs" and r["cfg"]["R"] == R and r["obs"] == obsname and split_at_cut(r[who]) for r in recs):
+                    vac.append("revision %d: %s never recomputed for a %s password cut inside a character" % (R, obsname, who))
+                if not any(split_at_cut(r[who]) and r["try"] == r[who] and r["route"] == "file" for r in opens):
+                    vac.append("revision %d: no file opened with a %s password cut inside a character" % (R, who))
     kinds = {r["kind"] for r in recs if r["ev"] == "obs" and r["obs"] == "ct"}
     if not {"str.dict", "str.nested", "str.top", "str.streamdict", "stream", "stream.meta", "stream.xref", "str.id"} <= kinds:
         vac.append("item kinds never compared: %s" % kinds)
@@ -270,7 +325,7 @@ def run(tier):
                 raise vlib.ToolError("no record suitable for the negative control (%s)" % what)
             return x
         neg = []
-        a = pick(lambda r: r["ev"] == "obs" and r["obs"] == "O" and r["cfg"]["R"] == 3, "O of revision 3")
+        a = pick(lambda r: r["ev"] == "obs" and r["obs"] == "O" and r["cfg"]["R"] == 3 and len(r["owner"]) > 0, "O of revision 3")
         a["bad"] = 1
         neg.append((a, lambda v: v == "O.R3"))
         b = pick(lambda r: r["ev"] == "obs" and r["obs"] == "ct" and r["kind"] == "stream" and r["cfg"]["R"] == 6, "stream ciphertext R6")
@@ -283,9 +338,14 @@ def run(tier):
         d = pick(lambda r: r["ev"] == "open" and r.get("expUser") and r["fk"] == "eq", "opened with the user password")
         d["fk"] = "ne"
         neg.append((d, lambda v: v.startswith("key.")))
-        e = pick(lambda r: r["ev"] == "open" and r.get("expUser") and r["authU"] == "yes", "authenticated user password")
+        e = pick(lambda r: r["ev"] == "open" and r.get("expUser") and r["authU"] == "yes" and not split_at_cut(r["try"]),
+                 "authenticated user password")
         e["authU"] = "no"
         neg.append((e, lambda v: v.startswith("auth.user.rejected")))
+        g = pick(lambda r: r["ev"] == "open" and r["cfg"]["R"] == 6 and r.get("expOwner") and not r.get("expUser") and r["authO"] == "yes"
+                 and split_at_cut(r["try"]), "owner password cut inside a character")
+        g["authO"], g["res"], g["fk"] = "no", "err", "na"
+        neg.append((g, lambda v: v == "password-cut-in-character.R56"))
         f = pick(lambda r: r["ev"] == "dict", "Encrypt dictionary")
         f["d"]["P"] += 1
         neg.append((f, lambda v: v.startswith("dict.P")))
